@@ -337,7 +337,7 @@ def check(prop, tier, seed):
                 k += 1
                 if k % plan["lift_every"] == 0:
                     w = json.loads(json.dumps(v))
-                    w["in"]["lift"] = "ABCD"[(k // plan["lift_every"]) % 4]
+                    w["in"]["lift"] = "ABCDE"[(k // plan["lift_every"]) % 5]
                     w["case"] = str(w.get("case", "")) + "-lift" + w["in"]["lift"]
                     extra_in.append(w)
         inputs.extend(extra_in)
